@@ -95,6 +95,7 @@ func c16Gen(class string, seed uint64, tier string) *vfScenario {
 		sc.Cfg["B"] = int64(B)
 		sc.Cfg["n"] = int64(B + 1 + rng.IntN(2*B))
 		sc.Cfg["change"] = int64(rng.IntN(3)) // 0 none, 1 an entry that sorts first is removed, 2 one that sorts first is created
+		sc.Cfg["relist"] = int64(rng.IntN(2)) // afterwards: create entries through a symlink to the directory and list it again
 		sc.Cfg["after"] = int64(1 + rng.IntN(3))
 		sc.Cfg["sites"] = int64(1 + rng.IntN(3))
 		return sc
@@ -358,6 +359,26 @@ func c16InMemWire(r *vfRun) {
 		prog = append(prog, vfOp{K: "readdir", H: 0})
 	}
 	prog = append(prog, vfOp{K: "close", H: 0})
+	// a second listing, after entries were created through another name of the directory (a symlink to it)
+	relistAt := -1
+	var second map[string]bool
+	if sc.cfg("relist", 0) != 0 {
+		prog = append(prog, vfOp{K: "symlink", P: "/ln", P2: "/dd"},
+			vfOp{K: "open", P: "/ln/zc", A: wfWrite | wfCreat, H: 98}, vfOp{K: "close", H: 98}, vfOp{K: "mkdir", P: "/ln/zd"},
+			vfOp{K: "opendir", P: "/dd", H: 1})
+		relistAt = len(prog)
+		for i := 0; i < (n+3)/B+3; i++ {
+			prog = append(prog, vfOp{K: "readdir", H: 1})
+		}
+		prog = append(prog, vfOp{K: "close", H: 1})
+		second = map[string]bool{"zc": true, "zd": true}
+		for name := range stable {
+			second[name] = true
+		}
+		if change == 2 {
+			second["a000"] = true
+		}
+	}
 	vfServerSites(sim, sc.cfg("sites", 3))
 	srv := &vfServer{sim: sim, kind: 1}
 	srv.c2s = sim.newPipe("c2s")
@@ -386,11 +407,12 @@ func c16InMemWire(r *vfRun) {
 		return
 	}
 	got := map[string]int{}
+	got2 := map[string]int{}
 	ended := false
 	for i, op := range wc.ops {
 		p := wc.replies[i]
 		switch op.K {
-		case "mkdir", "remove", "close":
+		case "mkdir", "remove", "close", "symlink":
 			if p.Type != wtStatus || p.Code != wsOK {
 				r.fail("C16/setup", "setup", "%v answered %v", wc.reqs[i], p)
 				return
@@ -401,6 +423,17 @@ func c16InMemWire(r *vfRun) {
 				return
 			}
 		case "readdir":
+			if relistAt >= 0 && i >= relistAt {
+				if p.Type == wtName {
+					for _, e := range p.Names {
+						got2[e.Name]++
+					}
+				} else if p.Type != wtStatus || p.Code != wsEOF {
+					r.fail("C16/listing-failed", "inmem-error", "READDIR answered %v", p)
+					return
+				}
+				continue
+			}
 			switch {
 			case p.Type == wtName:
 				for _, e := range p.Names {
@@ -439,6 +472,26 @@ func c16InMemWire(r *vfRun) {
 			r.fail("C16/extra-entry", "inmem-extra", "entry %q (x%d) is not in the directory", name, c)
 			return
 		}
+	}
+	if second != nil {
+		var all []string
+		for name := range second {
+			all = append(all, name)
+		}
+		sort.Strings(all)
+		for _, name := range all {
+			if got2[name] != 1 {
+				r.fail("C16/entry-lost", "inmem-relist", "after entries were created through a symlink to the directory, a new listing returned %q %d times (want once); it returned %d names for %d entries", name, got2[name], len(got2), len(second))
+				return
+			}
+		}
+		for name := range got2 {
+			if !second[name] && name != "." && name != ".." {
+				r.fail("C16/extra-entry", "inmem-relist", "the second listing holds %q, which is not in the directory", name)
+				return
+			}
+		}
+		sim.count("probe.listed_again_after_create_through_symlink")
 	}
 	if change != 0 {
 		sim.count("probe.directory_changed_during_listing")
